@@ -506,6 +506,7 @@ func (e *Engine) report(st *State, v *Violation) {
 		// already have a counterexample for this label; still must know if this one is feasible? no: one is enough
 		return
 	}
+	e.predefine(st)
 	r := e.checkModel(v.Cond)
 	if r == 2 {
 		return
@@ -582,13 +583,11 @@ func (e *Engine) evalShow(v Value) string {
 		if x.IsConst() {
 			return x.String()
 		}
-		var vs []*term.Term
-		term.Vars(x, map[*term.Term]bool{}, &vs)
-		m := e.model(vs)
-		if m == nil {
+		m := e.model([]*term.Term{x})
+		if m == nil || m[x] == nil {
 			return x.String()
 		}
-		return term.Subst(x, m, map[*term.Term]*term.Term{}).String()
+		return m[x].String()
 	case Iface:
 		if x.T == nil {
 			return "nil"
@@ -607,6 +606,7 @@ func (e *Engine) noteWitness(st *State) {
 	if e.Witness != nil || !e.WitnessWanted {
 		return
 	}
+	e.predefine(st)
 	if e.checkModel(st.PC) != 1 {
 		return
 	}
@@ -640,13 +640,11 @@ func (e *Engine) evalTyped(v Value) interface{} {
 		if x.IsConst() {
 			return typedConst(x)
 		}
-		var vs []*term.Term
-		term.Vars(x, map[*term.Term]bool{}, &vs)
-		m := e.model(vs)
-		if m == nil {
+		m := e.model([]*term.Term{x})
+		if m == nil || m[x] == nil {
 			return x.String()
 		}
-		return typedConst(term.Subst(x, m, map[*term.Term]*term.Term{}))
+		return typedConst(m[x])
 	case Iface:
 		if x.T == nil {
 			return nil
@@ -671,4 +669,26 @@ func (v *Violation) Signature() string {
 		s += "|" + strings.Join(b, ";")
 	}
 	return s
+}
+
+// predefine sends the terms whose model values will be read (observations, tags) to the solver
+// before the deciding check-sat, so that get-value can evaluate them.
+func (e *Engine) predefine(st *State) {
+	var walk func(v Value)
+	walk = func(v Value) {
+		switch x := v.(type) {
+		case *term.Term:
+			e.Solver.Define(x)
+		case Iface:
+			if x.T != nil {
+				walk(x.V)
+			}
+		}
+	}
+	for _, ob := range st.Obs {
+		walk(ob.Val)
+	}
+	for _, tg := range st.Tags {
+		walk(tg.Val)
+	}
 }
